@@ -54,6 +54,19 @@ func TestVerif_C01_Sim(t *testing.T) {
 	if vr.Thorough() {
 		budget = 8 * time.Minute
 	}
+	// small sharp drivers: two sources, one prefix, one observer that is the only one to flap —
+	// deep histories over a tiny alphabet (send-max bookkeeping across session flaps, withdraw /
+	// re-announce orders)
+	deep := 6
+	if vr.Thorough() {
+		deep = 8
+	}
+	for _, c := range []string{"eeA", "eea", "eee", "eic"} {
+		if !vr.Thorough() && (c == "eee" || c == "eic") {
+			continue
+		}
+		cfgs = append(cfgs, cfg{"cfg=" + c + ";oracle=c01;npfx=1;nvar=1;noapi;nopeers;src=01;flap=2", deep})
+	}
 	for _, c := range cfgs {
 		simExplore(t, r, simExploreCfg{Scenario: "routes", Arg: c.arg, Depth: c.depth, Budget: budget})
 	}
